@@ -141,7 +141,12 @@ func (rm *RegistrationManager) ingestRegistration(reg *DecoyRegistration) {
 		return
 	}
 
-	if rm.RegistrationExists(reg) {
+	// Check for an existing registration and track a new one in a single atomic step. With a
+	// separate check, two workers handling deliveries of the same registration could both take the
+	// "new" path below; the slower one then validated (AddRegistration) the object tracked by the
+	// other before that worker had checked and resolved its covert address.
+	exists, trackErr := rm.TrackRegIfNotExists(reg)
+	if exists {
 		// log phantom IP, shared secret, ipv6 support
 		logger.Debugf("Duplicate registration: %v %s\n", reg.IDString(), reg.RegistrationSource)
 		Stat().AddDupReg()
@@ -162,9 +167,9 @@ func (rm *RegistrationManager) ingestRegistration(reg *DecoyRegistration) {
 	// log phantom IP, shared secret, ipv6 support
 	logger.Debugf("New registration: %s %v\n", reg.IDString(), reg.String())
 
-	// Track the received registration
+	// The received registration has been tracked above
 	verifhook.Yield("ingest:new-before-track")
-	err := rm.TrackRegistration(reg)
+	err := trackErr
 	if err != nil {
 		logger.Errorln("error tracking registration: ", err)
 		Stat().AddErrReg()
